@@ -29,3 +29,24 @@ Example cx_refines_by_evaluation : abft_run 3 (fun _ => 0) ex_vals cx_D = refere
 Proof. vm_compute. reflexivity. Qed.
 Example cx_blocks : snd (abft_run 3 (fun _ => 0) ex_vals cx_D) = [(1, 1000, []); (2, 1015, [37094])].
 Proof. vm_compute. reflexivity. Qed.
+
+(* the hypotheses of LinkReject.reject_step at genesis: a first event (no parents) that claims frame 2 *)
+From LV Require Import proofs.LinkStep proofs.LinkRun proofs.LinkReject proofs.LinkEpochsX.
+Definition rj_e : fev := mkev 9000 0 1 2 [].
+Example rj_hyps :
+  Sim 1 (fun _ => 0) ex2_vals (fun _ => False) 48 (start 1 ex2_vals) [] [] [] /\ few_forkers ex2_vals [] /\
+  parents_known [] rj_e /\ nlookup (eid (fe rj_e)) [] = None /\ (ecr (fe rj_e) < length ex2_vals)%nat /\ ev_wf [] rj_e /\
+  r_frame_ok ex2_vals [] (mk_node (length ex2_vals) [] rj_e) = false /\ id_fresh 48 (eid (fe rj_e)).
+Proof.
+  split; [apply (Sim_start 1 (fun _ => 0) ex2_vals ex2_vals_ok (fun _ => False) 48 (fun a (F : False) => match F with end)); vm_compute; lia|].
+  split; [unfold few_forkers; vm_compute; reflexivity|]. split; [intros p []|]. split; [reflexivity|]. split; [vm_compute; lia|].
+  split; [apply ev_wf_b_ok; vm_compute; reflexivity|]. split; [vm_compute; reflexivity | apply fresh_b_ok; vm_compute; reflexivity].
+Qed.
+Example rj_rejected :
+  fst (fst (step 3 [] sample (start 1 ex2_vals) (OpP (to_aevent 1 (fun _ => 0) ex2_vals rj_e)))) = ObsP (Some EWrongFrame) [] 0 1.
+Proof. vm_compute. reflexivity. Qed.
+(* the reference walk without a policy on the stream cx_D: its projection is the reference *)
+Example cx_walk :
+  map pj_ev (fst (fst (ref_x 1 ex_vals (fun _ => None) [] (map slot0 cx_D) []))) = fst (reference ex_vals cx_D) /\
+  map pj_blk (snd (fst (ref_x 1 ex_vals (fun _ => None) [] (map slot0 cx_D) []))) = snd (reference ex_vals cx_D).
+Proof. vm_compute. split; reflexivity. Qed.
